@@ -17,6 +17,16 @@
 (*   [ev |-> "end", panic |-> BOOLEAN, runaway |-> BOOLEAN, err |-> STRING]             *)
 (*       Next() returned false (or the library panicked / did not stop within           *)
 (*       2 * length + 16 calls)                                                         *)
+(*                                                                                      *)
+(* A run is one DELIVERY of one document.  The property quantifies over "every way a    *)
+(* reader may deliver it in pieces": a delivery is the sequence of results of the Read  *)
+(* calls the decoder made - rd[i] = octets handed out up to and including the i-th      *)
+(* Read - and the way the end was signalled: "separate" (a last empty read returns      *)
+(* io.EOF), "with-data" (the last octets and io.EOF come from the same Read), "none"    *)
+(* (the decoder stopped reading before the reader reported the end).  Reads of zero     *)
+(* octets without error are legal anywhere.  Chunk independence is a relation between   *)
+(* runs of the same document: whatever two legal deliveries are chosen, the observation *)
+(* sequences are equal; it is checked against one fixed run (ref) of the document.      *)
 EXTENDS Integers, Sequences, FiniteSets, TLC
 
 NL == 10
@@ -35,6 +45,20 @@ Start(input, api, ref) ==
    done |-> FALSE, why |-> ""]
 
 Reject(st, why) == [st EXCEPT !.why = why]
+
+(* the io.Reader contract as far as the property's quantifier needs it *)
+LegalDelivery(input, rd, eof) ==
+  LET n == Len(rd)
+      before(i) == IF i = 1 THEN 0 ELSE rd[i - 1]
+  IN /\ eof \in {"separate", "with-data", "none"}
+     /\ \A i \in 1..n : before(i) <= rd[i] /\ rd[i] <= Len(input)       \* pieces of the input, in order
+     /\ (eof = "separate" => n >= 1 /\ rd[n] = Len(input) /\ before(n) = rd[n])
+     /\ (eof = "with-data" => n >= 1 /\ rd[n] = Len(input) /\ before(n) < rd[n])
+(* a run under a recorded delivery; a delivery that is not legal is the harness's fault, *)
+(* not the decoder's: it is reported under its own name and never as a C17 clause        *)
+StartD(input, api, ref, rd, eof) ==
+  IF LegalDelivery(input, rd, eof) THEN Start(input, api, ref)
+  ELSE Reject(Start(input, api, ref), "HARNESS_Delivery: the recorded reads are not a legal delivery of the input")
 
 (* ---- the clauses of the property, one definition each ---- *)
 
@@ -102,6 +126,7 @@ RECURSIVE Run(_, _)
 Run(st, evs) == IF evs = <<>> THEN st ELSE Run(Step(st, Head(evs)), Tail(evs))
 Accepts(input, api, ref, evs) == LET f == Run(Start(input, api, ref), evs) IN f.why = "" /\ f.done
 WhyNot(input, api, ref, evs) == Run(Start(input, api, ref), evs).why
+WhyNotD(input, api, ref, rd, eof, evs) == Run(StartD(input, api, ref, rd, eof), evs).why
 
 (* ---- the monitor as a state machine driven by an arbitrary token-stream generator ---- *)
 CONSTANTS Inputs,     \* set of inputs (sequences of octets)
